@@ -119,6 +119,22 @@ func runOn(vm *ugo.VM, bc *ugo.Bytecode, abortAfterMs int, args []ugo.Object) *S
 	return runOnG(vm, bc, abortAfterMs, args, false)
 }
 
+var sameGoroutine bool
+
+// runVMHere runs the VM on the calling goroutine (under recover, without a time limit of its own).
+func runVMHere(vm *ugo.VM, globals ugo.Object, args ...ugo.Object) (out *Sexp) {
+	defer func() {
+		if r := recover(); r != nil {
+			out = L(A("panic"), A(sanitize(fmt.Sprint(r))))
+		}
+	}()
+	v, err := vm.Run(globals, args...)
+	if err != nil {
+		return errSexp(err)
+	}
+	return L(A("ok"), SexpOfValue(v))
+}
+
 // nilGlobals: Run is given no globals object (the VM creates its own)
 func runOnG(vm *ugo.VM, bc *ugo.Bytecode, abortAfterMs int, args []ugo.Object, nilGlobals bool) *Sexp {
 	vm.SetBytecode(bc)
@@ -127,6 +143,12 @@ func runOnG(vm *ugo.VM, bc *ugo.Bytecode, abortAfterMs int, args []ugo.Object, n
 			time.Sleep(time.Duration(abortAfterMs) * time.Millisecond)
 			vm.Abort()
 		}()
+	}
+	if sameGoroutine {
+		if nilGlobals {
+			return runVMHere(vm, nil, args...)
+		}
+		return runVMHere(vm, hostGlobals(), args...)
 	}
 	if nilGlobals {
 		return runVM(vm, nil, args...)
@@ -137,7 +159,11 @@ func runOnG(vm *ugo.VM, bc *ugo.Bytecode, abortAfterMs int, args []ugo.Object, n
 // (case id history <recover 0|1|0n|1n> ; the suffix n: every Run is given nil globals (hist (<src hex> <clear 0|1> <abort ms> [(args v...)])...) <obs hex> (args v...) <module hex>...)
 func runHistory(args []*Sexp) *Sexp {
 	rec := strings.HasPrefix(args[0].Atom, "1")
-	nilG := strings.HasSuffix(args[0].Atom, "n")
+	nilG := strings.Contains(args[0].Atom, "n")
+	// suffix s: every run of the case is made on the calling goroutine (a child VM which a run gives back to the
+	// pool is then the one the next run takes)
+	sameGoroutine = strings.Contains(args[0].Atom, "s")
+	defer func() { sameGoroutine = false }()
 	mm := func() *ugo.ModuleMap {
 		mm := moduleMapStd()
 		for i, a := range args[4:] {
@@ -160,6 +186,8 @@ func runHistory(args []*Sexp) *Sexp {
 		return L(A("obs-compile-error"))
 	}
 	before := encodeBytes(obsBc)
+	// the observed script on a new VM before anything else has run in this case: what it must give afterwards too
+	baseline := runOnG(ugo.NewVM(nil).SetRecover(rec), obsBc, 0, obsArgs, nilG)
 	vm := ugo.NewVM(nil).SetRecover(rec)
 	hist := L(A("hist"))
 	histUnchanged := "1"
@@ -194,5 +222,5 @@ func runHistory(args []*Sexp) *Sexp {
 	if !bytes.Equal(before, after) {
 		unchanged = "0"
 	}
-	return L(A("history"), hist, L(A("used"), used), L(A("again"), again), L(A("fresh"), fresh), L(A("unchanged"), A(unchanged), A(histUnchanged)))
+	return L(A("history"), hist, L(A("used"), used), L(A("again"), again), L(A("fresh"), fresh), L(A("unchanged"), A(unchanged), A(histUnchanged)), L(A("baseline"), baseline))
 }
